@@ -157,6 +157,64 @@ def lazy_cut(rid, out, ci, v0, v1, v2, v3, v4, v5):
     return True
 
 
+SPECIALS = [None, 0, False, "", (), [], 0.0]
+
+
+def lazy_special(sel, a, nev):
+    """a diamond whose shared producer returns a special value (None, 0, False, empty containers) when
+    a == 0: still evaluated exactly once, however many consumers share it and however often evaluate() is called"""
+    from pipefunc import PipeFunc, Pipeline
+
+    L.reset()
+    sel = L.concretize(sel, 0, len(SPECIALS) - 1)
+    nev = L.concretize(nev, 1, 3)
+    sp = SPECIALS[sel]
+
+    def build(log, lazy):
+        def f(a):
+            log.append("f")
+            return sp if a == 0 else a
+
+        def g(b):
+            log.append("g")
+            return 1 if b is None else (2 if not b else 3)
+
+        def h(b):
+            log.append("h")
+            return 5 if b is None else (6 if not b else 7)
+
+        def k(c, d):
+            log.append("k")
+            return 10 * c + d
+
+        with NoTracing():
+            p = Pipeline([PipeFunc(f, "b"), PipeFunc(g, "c"), PipeFunc(h, "d"), PipeFunc(k, "e")], lazy=lazy)
+            runt.warm(p)
+        return p
+
+    log, log2 = [], []
+    p, pe = build(log, True), build(log2, False)
+    exp = pe("e", a=a)
+    r = p("e", a=a)
+    if len(log) != 0:
+        return fail("a function ran before evaluate()")
+    for _ in range(nev):
+        if not (r.evaluate() == exp):
+            return fail("evaluate() differs from the eager result")
+    if sorted(log) != ["f", "g", "h", "k"]:
+        return fail("needed functions were not run exactly once")
+    rb = p("b", a=a)
+    n = len(log)
+    v1 = rb.evaluate()
+    v2 = rb.evaluate()
+    if len(log) != n + 1:
+        return fail("repeated evaluate() of a node re-ran its function")
+    eb = pe("b", a=a)
+    if not (type(v1) is type(eb) and v1 == eb and type(v2) is type(eb) and v2 == eb):
+        return fail("node value differs from the eager result")
+    return True
+
+
 CANARIES = {}
 
 
@@ -230,4 +288,15 @@ def obligations(tier):
                 bounds=f"{rid}: lazy call of {out} with every valid set of supplied names ({nc})",
             )
         )
+    obs.append(
+        Ob(
+            "lazy_special",
+            [("sel", "int"), ("a", "int"), ("nev", "int")],
+            [f"0 <= sel < {len(SPECIALS)}", "1 <= nev <= 3"],
+            "H.lazy_special(sel, a, nev)",
+            timeout=120,
+            bounds="diamond whose shared producer returns None / 0 / False / '' / () / [] / 0.0 when a == 0 (a unbounded): evaluate() 1..3 times, "
+            "each function exactly once; a node evaluated twice runs once",
+        )
+    )
     return obs
